@@ -5,6 +5,13 @@ the half-cache margin, short and long fragments, duplicates, two cells, two UMIs
 contig) the real MoleculeIterator is run for EVERY check_eject_every in {None,0..n}, both pooling
 methods, two cache sizes, NlaIII and CHIC classes.  Oracle: partition == partition of the never-eject run,
 every fragment emitted exactly once, pooling methods agree for exact UMIs.
+
+Audit extension (kinds 'opt', 'bam', 'unsorted'): the same schedule quantifier under every iterator option that sits
+between the input and the buffer (yield_invalid, every_fragment_as_molecule, skip_contigs, min_mapping_qual, a fragment cap
+with yield_overflow on/off, max_buffer_size, perform_qflag + progress callback, the default interval), every documented
+input shape (lists, tuples, 1-tuples, bare segments, an indexed BAM file with and without fetch arguments, ReadIterator),
+a complete iteration followed by a second one, and - for check_eject_every=None only, where the documentation waives
+sortedness - every unsorted delivery order.
 """
 import itertools
 
@@ -15,13 +22,29 @@ RULE = ('all multisets of <=n fragment letters, delivered in coordinate order (a
         'check_eject_every in {None,0..n} x pooling {0,1} x cache size {100,1000} x class {NlaIII, CHIC r=0, CHIC r=15}; the same for the plain Fragment/Molecule '
         'classes over single-end reads that share starts or ends (a molecule can grow at its end); '
         'non-trivial = a run in which a molecule was ejected mid-stream while an older molecule stayed in the buffer '
-        '(non-prefix pop); states = distinct (word, configuration) pairs, transitions = fragments pushed')
+        '(non-prefix pop); states = distinct (word, configuration) pairs, transitions = fragments pushed. '
+        'kind opt: all multisets of <=m option letters (ok / QC-fail / mapping quality 5 and 10 / unmapped mate; two contigs) in every '
+        'sorted order x every option of OPTIONS x check_eject_every in {None,0..n,default} x pooling {0,1}; max_buffer_size additionally '
+        'x every limit 1..n; input shapes tuple / 1-tuple / bare segment for the options that look at the reads before a fragment '
+        'exists; non-trivial = the option took effect in a run that also ejected mid-stream. '
+        'kind bam: every multiset of <=k site letters written as a coordinate-sorted indexed BAM x fetch arguments {none, contig, '
+        'contig+start+end} x MatePairIterator / ReadIterator x the same schedules. '
+        'kind unsorted: every permutation of every multiset of <=k site letters with check_eject_every=None, site-exact classes')
 ASSUMPTIONS = [
     'input is sorted by the coordinate at which a sorted BAM reader has seen all mates of a fragment',
     'every fragment spans less than half the cache size (48 < 50)',
     'UMIs are compared exactly (umi_hamming_distance=0)',
     'pooling methods are only compared with each other for site-exact classes (NlaIII, CHIC radius 0)',
     'plain-class input is sorted by fragment start; a re-used iterator object must behave like a fresh one after an abandoned iteration',
+    'options: a fragment the option excludes by its documentation (invalid without yield_invalid, on a skipped contig, a read below '
+    'min_mapping_qual, overflow without yield_overflow) is never emitted, every other fragment exactly once; the partition of the emitted '
+    'fragments equals the never-eject partition under the same option',
+    'max_buffer_size: MemoryError is demanded only when the number of buffered FRAGMENTS exceeds the limit and forbidden only when the '
+    'number of buffered READS stays within it (the documentation says reads, the counter counts fragments; in between is left open); '
+    'the buffer occupancy is observed from outside (fragments consumed minus fragments emitted) in the unlimited run of the same schedule',
+    'fetch arguments never cut a fragment (whole contigs or a window containing all reads)',
+    'unsorted input only with check_eject_every=None (documented), only site-exact classes (their grouping is an equivalence relation)',
+    'perform_allele_clustering is left out: it changes the partition by design and needs an allele resolver (C18)',
 ]
 
 CACHE = 100
@@ -53,11 +76,377 @@ PLAIN_LETTERS = [
 PLAIN_BASE = 1000
 
 
+# ---------------------------------------------------------------- audit extension: options, input shapes, BAM, unsorted
+from gen.c07_opts import OPT_LETTERS, MIN_MQ, SITES as OPT_SITES   # noqa: E402
+
+CORE = [0, 1, 2, 6, 8]            # ok letters: site 0 short / long / other cell, far site, second contig
+# option -> iterator kwargs, molecule kwargs, letters, shapes to try in addition to lists
+OPTIONS = {
+    # no option: the unmapped-mate fragment and a site with the coordinate of site 0 on the second contig
+    'no_option': {'letters': [0, 1, 2, 5, 6, 12], 'shapes': True},
+    'drop_invalid': {'letters': [0, 1, 2, 3, 6, 9, 8], 'shapes': True},
+    'yield_invalid': {'kw': {'yield_invalid': True}, 'letters': [0, 1, 2, 3, 6, 9, 8]},
+    'every_fragment': {'kw': {'every_fragment_as_molecule': True}, 'letters': [0, 1, 3, 6, 8]},
+    'every_fragment+yield_invalid': {'kw': {'every_fragment_as_molecule': True, 'yield_invalid': True}, 'letters': [0, 1, 3, 6, 8],
+                                     'thorough': True},
+    'skip_chr2': {'kw': {'skip_contigs': {'chr2'}}, 'letters': [0, 1, 2, 5, 6, 8], 'shapes': True},
+    'skip_chr1': {'kw': {'skip_contigs': {'chr1'}}, 'letters': [0, 6, 8, 11]},
+    'min_mq': {'kw': {'min_mapping_qual': MIN_MQ}, 'letters': [0, 1, 4, 6, 7, 8, 10], 'shapes': True},
+    'cap2': {'margs': {'max_associated_fragments': 2}, 'letters': CORE},
+    'cap2_drop': {'margs': {'max_associated_fragments': 2}, 'kw': {'yield_overflow': False}, 'letters': CORE},
+    'cap1': {'margs': {'max_associated_fragments': 1}, 'letters': CORE, 'thorough': True},
+    'max_buffer': {'letters': CORE},
+    # single-end fragments only (reads == fragments: the clause is exact), one more fragment: a molecule of two is ejected, then the
+    # buffer has to grow back to the limit without passing it
+    'max_buffer_deep': {'letters': [0, 6, 8], 'extra_fragments': 1},
+    'qflag_callback': {'kw': {'perform_qflag': True, 'progress_callback_function': 'CALLBACK'}, 'letters': [0, 1, 2, 5, 6, 8],
+                       'shapes': True},
+    'twice': {'letters': CORE},
+}
+OPT_CLASSES = {'quick': ['nla'], 'thorough': ['nla', 'chic15', 'plain']}
+BAM_CLASSES = {'quick': ['nla'], 'thorough': ['nla', 'chic15']}
+UNSORTED_CLASSES = {'quick': ['nla'], 'thorough': ['nla', 'chic0']}
+BAM_FETCH = [{}, {'contig': 'chr1'}, {'contig': 'chr2'}, {'contig': 'chr1', 'start': 0, 'end': 5000}]
+# quick: one cell, one UMI (site 0 short/long, site 1 short/long/long reverse, long at sites 2 and 3, second contig)
+BAM_LETTERS = {'quick': [0, 1, 4, 5, 6, 8, 10, 11], 'thorough': list(range(12))}
+
+
+def classes_of(cls):
+    from singlecellmultiomics.molecule import NlaIIIMolecule, CHICMolecule, Molecule
+    from singlecellmultiomics.fragment import NlaIIIFragment, CHICFragment, Fragment
+    if cls == 'plain':
+        return Molecule, Fragment, {'umi_hamming_distance': 0}
+    if cls == 'nla':
+        return NlaIIIMolecule, NlaIIIFragment, {'umi_hamming_distance': 0}
+    return CHICMolecule, CHICFragment, {'umi_hamming_distance': 0, 'assignment_radius': 0 if cls == 'chic0' else 15}
+
+
+def opt_expected(letter, optname):
+    """does the documentation of the option let this fragment out? (True / False)"""
+    site, length, cell, umi, variant = letter
+    kw = OPTIONS[optname].get('kw', {})
+    if variant == 'qcfail' and not kw.get('yield_invalid'):
+        return False
+    if OPT_SITES[site][0] in kw.get('skip_contigs', ()):
+        return False
+    if 'min_mapping_qual' in kw and variant == 'mq5':
+        return False
+    return True
+
+
+def opt_orders(multiset):
+    from gen.c07_opts import opt_delivery
+    groups = {}
+    for li in multiset:
+        groups.setdefault(opt_delivery(li), []).append(li)
+    per = [sorted(set(itertools.permutations(groups[k]))) for k in sorted(groups)]
+    for combo in itertools.product(*per):
+        yield tuple(x for g in combo for x in g)
+
+
+def run_opt(word, cls, e, pooling, optname, shape='list', maxbuf=None, twice=False):
+    """one run of the real iterator; returns (molecules, fragments consumed at each yield, raised MemoryError?)"""
+    from singlecellmultiomics.molecule import MoleculeIterator
+    from gen.c07_opts import opt_reads, as_form
+    mc, fc, fargs = classes_of(cls)
+    opt = OPTIONS[optname]
+    kw = dict(opt.get('kw', {}))
+    kw.setdefault('perform_qflag', False)
+    calls = []
+    if kw.get('progress_callback_function') == 'CALLBACK':
+        # a callback that looks at the iterator the way a progress bar does
+        kw['progress_callback_function'] = lambda i, it, reads: calls.append((i, repr(it), it.get_molecule_cache_size()))
+    if 'skip_contigs' in kw:
+        kw['skip_contigs'] = set(kw['skip_contigs'])
+    if e != 'default':
+        kw['check_eject_every'] = e
+    if maxbuf is not None:
+        kw['max_buffer_size'] = maxbuf
+    margs = dict(opt.get('margs', {}), cache_size=CACHE)
+    counter = {'n': 0}
+
+    def feed():
+        items = as_form([opt_reads(f'f{i}', OPT_LETTERS[li], cls) for i, li in enumerate(word)], shape)
+        counter['n'] = 0
+        for r in items:
+            counter['n'] += 1
+            yield r
+    it = MoleculeIterator(feed(), molecule_class=mc, fragment_class=fc, pooling_method=pooling, molecule_class_args=margs,
+                          fragment_class_args=fargs, **kw)
+    if twice:
+        # history on the SAME iterator object: an earlier iteration, complete ('all') or abandoned after its k-th molecule
+        g = iter(it)
+        for k, _ in enumerate(g, 1):
+            if k == twice:
+                break
+        del g
+        it.alignments = feed()
+    mols, consumed = [], []
+    try:
+        for m in it:
+            mols.append(m)
+            consumed.append(counter['n'])
+    except MemoryError:
+        if maxbuf is None:
+            raise
+        return mols, consumed, True
+    return mols, consumed, False
+
+
+def names_of(mols):
+    return [tuple(sorted({r.query_name for r in m.iter_reads()})) for m in mols]
+
+
+def check_opt_word(word, optname, tier):
+    from gen.c07_opts import n_reads
+    viol = {}
+    n = len(word)
+    nruns = 0
+    flags = {'ejected': False, 'effect': False, 'memerr': False}
+    expected = sorted(f'f{i}' for i, li in enumerate(word) if opt_expected(OPT_LETTERS[li], optname))
+    copies = {}
+    for li in word:
+        if OPT_LETTERS[li][4] != 'qcfail':
+            copies[OPT_LETTERS[li][:1] + OPT_LETTERS[li][2:3]] = copies.get(OPT_LETTERS[li][:1] + OPT_LETTERS[li][2:3], 0) + 1
+    most = max(copies.values()) if copies else 0          # copies of one (site, cell): they would share a molecule
+    # did the option do anything on this word?
+    if optname in ('drop_invalid', 'yield_invalid', 'every_fragment+yield_invalid'):
+        flags['effect'] = any(OPT_LETTERS[li][4] == 'qcfail' for li in word)
+    elif optname == 'every_fragment':
+        flags['effect'] = most > 1
+    elif optname.startswith('cap'):
+        flags['effect'] = most > OPTIONS[optname]['margs']['max_associated_fragments']
+    elif optname in ('qflag_callback', 'twice', 'no_option'):
+        flags['effect'] = True
+    else:
+        flags['effect'] = len(expected) < n
+    single_end = all(n_reads(OPT_LETTERS[li]) == 1 for li in word)
+    for cls in OPT_CLASSES[tier]:
+        for pooling in (0, 1):
+            base = None
+            pre = f'{cls}:pooling{pooling}:opt:{optname}'
+            for e in [None] + list(range(n + 1)) + ['default']:
+                try:
+                    mols, consumed, _ = run_opt(word, cls, e, pooling, optname)
+                except Exception as ex:
+                    viol.setdefault(f'{pre}:exception:{type(ex).__name__}', {'e': e, 'ex': repr(ex)})
+                    continue
+                nruns += 1
+                part = sorted(names_of(mols))
+                names = sorted(x for g in part for x in g)
+                if any(c < n for c in consumed) and not optname.startswith('every_fragment'):
+                    flags['ejected'] = True
+                if len(names) != len(set(names)):
+                    viol.setdefault(f'{pre}:fragment-emitted-twice', {'e': e, 'partition': part})
+                elif optname == 'cap2_drop':
+                    # which copies overflow is decided by arrival order (compared with the never-eject run below); how many is
+                    # documented: the copies of one (site, cell) beyond the cap are not yielded
+                    keep = sum(min(c, 2) for c in copies.values())
+                    if len(names) != keep:
+                        viol.setdefault(f'{pre}:' + ('fragment-lost' if len(names) < keep else 'overflow-fragment-emitted'),
+                                        {'e': e, 'partition': part, 'expected_number_of_fragments': keep})
+                elif names != expected:
+                    what = 'fragment-lost' if set(expected) - set(names) else 'excluded-fragment-emitted'
+                    viol.setdefault(f'{pre}:{what}', {'e': e, 'partition': part, 'expected_fragments': expected})
+                if optname.startswith('every_fragment') and any(len(g) > 1 for g in part):
+                    viol.setdefault(f'{pre}:fragments-grouped', {'e': e, 'partition': part})
+                if base is None:
+                    base = part
+                elif part != base:
+                    viol.setdefault(f'{pre}:partition-depends-on-ejection-schedule', {'e': e, 'got': part, 'never_eject': base})
+                # ---- histories and shapes on the two extreme schedules
+                if e in (None, 0):
+                    variants = []
+                    if optname == 'twice':
+                        variants.append(('second-complete-iteration', {'twice': 'all'}))
+                        variants += [(f'iteration-after-one-abandoned-at-molecule-{k}', {'twice': k}) for k in (1, 2) if k < len(part)]
+                    if OPTIONS[optname].get('shapes'):
+                        variants.append(('shape-tuple', {'shape': 'tuple'}))
+                        if single_end:
+                            variants += [('shape-single', {'shape': 'single'}), ('shape-bare', {'shape': 'bare'})]
+                    for vname, vkw in variants:
+                        try:
+                            mols2, _, _ = run_opt(word, cls, e, pooling, optname, **vkw)
+                            nruns += 1
+                            part2 = sorted(names_of(mols2))
+                            if part2 != part:
+                                viol.setdefault(f'{pre}:{vname}:partition-differs', {'e': e, 'got': part2, 'list_input_fresh_iterator': part})
+                        except Exception as ex:
+                            # the shape is handled before any fragment / buffer exists: one signature per option, not per class
+                            viol.setdefault(f'opt:{optname}:{vname}:exception:{type(ex).__name__}',
+                                            {'e': e, 'class': cls, 'pooling': pooling, 'ex': repr(ex)})
+                # ---- max_buffer_size: occupancy observed from outside in this (unlimited) run
+                if optname.startswith('max_buffer'):
+                    sizes = [len(g) for g in names_of(mols)]
+                    reads_of = {f'f{i}': n_reads(OPT_LETTERS[li]) for i, li in enumerate(word)}
+                    rsizes = [sum(reads_of[x] for x in g) for g in names_of(mols)]
+                    occ_f, occ_r = [], []
+                    for c in range(1, n + 1):      # occupancy when fragment c has just been stored
+                        gone_f = sum(sz for sz, at in zip(sizes, consumed) if at < c)
+                        gone_r = sum(sz for sz, at in zip(rsizes, consumed) if at < c)
+                        occ_f.append(c - gone_f)
+                        occ_r.append(sum(n_reads(OPT_LETTERS[li]) for li in word[:c]) - gone_r)
+                    for k in range(1, n + 1):
+                        try:
+                            mols3, _, err = run_opt(word, cls, e, pooling, optname, maxbuf=k)
+                        except Exception as ex:
+                            viol.setdefault(f'{pre}:limited:exception:{type(ex).__name__}', {'e': e, 'limit': k, 'ex': repr(ex)})
+                            continue
+                        nruns += 1
+                        if err:
+                            flags['memerr'] = True
+                            if max(occ_f) <= k and max(occ_r) <= k:
+                                viol.setdefault(f'{pre}:MemoryError-although-buffer-within-limit',
+                                                {'e': e, 'limit': k, 'buffered_fragments_after_each_push': occ_f, 'buffered_reads': occ_r})
+                        else:
+                            if max(occ_f) > k:
+                                viol.setdefault(f'{pre}:limit-exceeded-without-MemoryError',
+                                                {'e': e, 'limit': k, 'buffered_fragments_after_each_push': occ_f})
+                            elif sorted(names_of(mols3)) != part:
+                                viol.setdefault(f'{pre}:limited:partition-differs', {'e': e, 'limit': k, 'got': sorted(names_of(mols3))})
+                            if max(occ_f) < n:
+                                flags['effect'] = True      # the limit was survived only because molecules were ejected in time
+    return [(s_, d) for s_, d in viol.items()], nruns, flags
+
+
+# ---- kind bam: the iterator reads an indexed coordinate-sorted BAM file itself
+def read_partition(mols):
+    return sorted(tuple(sorted((r.query_name, 1 if r.is_read1 else 2) for r in m.iter_reads())) for m in mols)
+
+
+def check_bam_word(ms, tier):
+    import os
+    import shutil
+    import tempfile
+    import pysam
+    from singlecellmultiomics.molecule import MoleculeIterator
+    from singlecellmultiomics.molecule.iterator import ReadIterator
+    from gen.c07_opts import write_sorted_bam
+    word = next(orders(ms))
+    n = len(word)
+    viol = {}
+    nruns = 0
+    flags = {'ejected': False, 'restricted': False}
+    d = tempfile.mkdtemp(dir='/dev/shm', prefix='c07bam_')
+    try:
+        for cls in BAM_CLASSES[tier]:
+            mc, fc, fargs = classes_of(cls)
+            path = write_sorted_bam(os.path.join(d, f'{cls}.bam'), build(word, cls))
+            for fetch in BAM_FETCH:
+                want = sorted(f'f{i}' for i, li in enumerate(word) if 'contig' not in fetch or S[LETTERS[li][0]][0] == fetch['contig'])
+                for icls in ('mate', 'read'):
+                    if icls == 'read' and fetch:
+                        continue
+                    ikw = {'iterator_class': ReadIterator} if icls == 'read' else {}
+                    for pooling in (0, 1):
+                        base = None
+                        pre = f'{cls}:pooling{pooling}:bam:{icls}-iterator:' + ('fetch-' + '+'.join(sorted(fetch)) if fetch else 'whole-file')
+                        for e in [None] + list(range(n + 1)):
+                            try:
+                                with pysam.AlignmentFile(path) as f:
+                                    it = MoleculeIterator(f, molecule_class=mc, fragment_class=fc, check_eject_every=e,
+                                                          pooling_method=pooling, molecule_class_args={'cache_size': CACHE},
+                                                          fragment_class_args=fargs, perform_qflag=False, **ikw, **fetch)
+                                    mols, tells = [], []
+                                    for m in it:
+                                        mols.append(m)
+                                        tells.append(f.tell())
+                                    end = f.tell()
+                            except Exception as ex:
+                                viol.setdefault(f'{pre}:exception:{type(ex).__name__}', {'e': e, 'ex': repr(ex)})
+                                continue
+                            nruns += 1
+                            part = read_partition(mols)
+                            ids = [x for g in part for x in g]
+                            if len(ids) != len(set(ids)):
+                                viol.setdefault(f'{pre}:read-emitted-twice', {'e': e, 'partition': part})
+                            if icls == 'mate':
+                                # every read of every fragment on the fetched contig comes out (all pairs are proper, same contig)
+                                got = sorted({x[0] for x in ids})
+                                if got != want:
+                                    what = 'fragment-lost' if set(want) - set(got) else 'fragment-outside-fetch-emitted'
+                                    viol.setdefault(f'{pre}:{what}', {'e': e, 'partition': part, 'expected_fragments': want})
+                                if len(want) < n:
+                                    flags['restricted'] = True
+                            if base is None:
+                                base = part
+                            elif part != base:
+                                viol.setdefault(f'{pre}:partition-depends-on-ejection-schedule', {'e': e, 'got': part, 'never_eject': base})
+                            if any(t < end for t in tells):
+                                flags['ejected'] = True      # a molecule came out before the file had been read to its end
+    finally:
+        shutil.rmtree(d, ignore_errors=True)
+    return [(s_, d_) for s_, d_ in viol.items()], nruns, flags
+
+
+# ---- kind unsorted: check_eject_every=None makes sorted input unnecessary (class docstring)
+def check_unsorted_ms(ms, tier):
+    from singlecellmultiomics.molecule import MoleculeIterator
+    viol = {}
+    nruns = 0
+    # identity of a fragment = (letter, k-th copy): comparable between delivery orders
+    ident = []
+    seen = {}
+    for li in ms:
+        seen[li] = seen.get(li, 0) + 1
+        ident.append((li, seen[li]))
+    nperm = 0
+    first = tuple(sorted(range(len(ms)), key=lambda i: (deliv(ms[i]), ms[i])))
+    for cls in UNSORTED_CLASSES[tier]:
+        mc, fc, fargs = classes_of(cls)
+        ref = None
+        done = set()
+        for perm in [first] + sorted(itertools.permutations(range(len(ms)))):
+            # permutations that only exchange copies of the same letter are the same input
+            key = tuple(ms[i] for i in perm)
+            if key in done:
+                continue
+            done.add(key)
+            nperm += 1
+            for pooling in (0, 1):
+                reads = []
+                cnt = {}
+                for i in perm:
+                    li = ms[i]
+                    cnt[li] = cnt.get(li, 0) + 1
+                    site, length, cell, umi, rev = LETTERS[li]
+                    contig, pos = S[site]
+                    fn = nla_reads if cls == 'nla' else chic_reads
+                    reads.append(fn(f'L{li}c{cnt[li]}', contig, pos, length, cell, umi, reverse=rev))
+                try:
+                    it = MoleculeIterator(reads, molecule_class=mc, fragment_class=fc, check_eject_every=None, pooling_method=pooling,
+                                          molecule_class_args={'cache_size': CACHE}, fragment_class_args=fargs, perform_qflag=False)
+                    part = partition_of(list(it))
+                except Exception as ex:
+                    viol.setdefault(f'{cls}:pooling{pooling}:unsorted:exception:{type(ex).__name__}', {'order': list(key), 'ex': repr(ex)})
+                    continue
+                nruns += 1
+                names = [x for g in part for x in g]
+                if sorted(names) != sorted(f'L{li}c{k}' for li, k in ident):
+                    what = 'fragment-emitted-twice' if len(names) != len(set(names)) else 'fragment-lost'
+                    viol.setdefault(f'{cls}:pooling{pooling}:unsorted:{what}', {'order': list(key), 'partition': part})
+                if ref is None:
+                    ref = part      # the coordinate-sorted order, pooling 0
+                elif part != ref:
+                    viol.setdefault(f'{cls}:pooling{pooling}:unsorted:partition-depends-on-delivery-order-without-ejection',
+                                    {'order': list(key), 'got': part, 'sorted_order': ref})
+    return [(s_, d) for s_, d in viol.items()], nruns, nperm
+
+
 def bounds(tier):
     return {'max_fragments': 5 if tier == 'quick' else 6, 'letters': LETTERS, 'sites': S, 'cache_sizes': [100, 1000],
             'classes': ['nla', 'chic0', 'chic15'] if tier == 'thorough' else ['nla', 'chic15'],
             'eject_every': 'None,0..n', 'pooling': [0, 1], 'plain_letters(contig,start,end,cell)': PLAIN_LETTERS,
-            'plain_max_fragments': 4 if tier == 'quick' else 5}
+            'plain_max_fragments': 4 if tier == 'quick' else 5,
+            'opt_letters(site,length,cell,umi,variant)': OPT_LETTERS, 'opt_max_fragments': 4 if tier == 'quick' else 5,
+            'opt_classes': OPT_CLASSES[tier], 'options': {k: {'letters': v['letters'], 'kw': repr(v.get('kw', {})),
+                                                               'molecule_args': v.get('margs', {}),
+                                                               'extra_fragments': v.get('extra_fragments', 0)}
+                                                           for k, v in OPTIONS.items() if tier == 'thorough' or not v.get('thorough')},
+            'opt_eject_every': 'None,0..n,default(10000)', 'max_buffer_size': '1..n', 'input_shapes': ['list', 'tuple', 'single', 'bare'],
+            'bam_max_fragments': 3 if tier == 'quick' else 4, 'bam_classes': BAM_CLASSES[tier], 'bam_letters': BAM_LETTERS[tier],
+            'bam_fetch': [repr(f) for f in BAM_FETCH], 'bam_iterator_classes': ['MatePairIterator', 'ReadIterator'],
+            'unsorted_max_fragments': 3 if tier == 'quick' else 4, 'unsorted_classes': UNSORTED_CLASSES[tier]}
 
 
 def build_plain(word):
@@ -221,21 +610,65 @@ def check_word(word, tier, kind='site'):
     return [(s, d) for s, d in viol.items()], nruns, nonprefix, ejected
 
 
+def multisets(letters, kmax):
+    out = []
+    for k in range(1, kmax + 1):
+        out.extend(itertools.combinations_with_replacement(letters, k))
+    return out
+
+
 def shards(tier):
-    n = bounds(tier)['max_fragments']
-    ms = []
-    for k in range(1, n + 1):
-        ms.extend(itertools.combinations_with_replacement(range(len(LETTERS)), k))
+    b = bounds(tier)
+    ms = multisets(range(len(LETTERS)), b['max_fragments'])
     G = 16 if tier == 'quick' else 24
     out = [('site', ms[i:i + G]) for i in range(0, len(ms), G)]
-    pm = []
-    for k in range(1, bounds(tier)['plain_max_fragments'] + 1):
-        pm.extend(itertools.combinations_with_replacement(range(len(PLAIN_LETTERS)), k))
+    pm = multisets(range(len(PLAIN_LETTERS)), b['plain_max_fragments'])
     out += [('plain', pm[i:i + 3 * G]) for i in range(0, len(pm), 3 * G)]
+    for optname, opt in OPTIONS.items():
+        if opt.get('thorough') and tier != 'thorough':
+            continue
+        om = multisets(opt['letters'], b['opt_max_fragments'] + opt.get('extra_fragments', 0))
+        H = 48 if not optname.startswith('max_buffer') else 16
+        out += [('opt', optname, om[i:i + H]) for i in range(0, len(om), H)]
+    bm = multisets(BAM_LETTERS[tier], b['bam_max_fragments'])
+    out += [('bam', bm[i:i + 12]) for i in range(0, len(bm), 12)]
+    um = multisets(range(len(LETTERS)), b['unsorted_max_fragments'])
+    out += [('unsorted', um[i:i + 48]) for i in range(0, len(um), 48)]
     return out
 
 
 def run_shard(shard, tier, acc):
+    kind = shard[0]
+    if kind == 'opt':
+        _, optname, mss = shard
+        for ms in mss:
+            for word in opt_orders(ms):
+                viols, nruns, fl = check_opt_word(word, optname, tier)
+                case = {'word': list(word), 'kind': 'opt', 'option': optname}
+                nt = fl['effect'] and (fl['ejected'] or optname.startswith('every_fragment'))
+                acc.case(case, transitions=nruns * len(word), execs=nruns, nontrivial=nt, states=nruns,
+                         outcome=f'opt:{optname}:effect={fl["effect"]},ejected={fl["ejected"]}' + (f',MemoryError={fl["memerr"]}' if optname.startswith('max_buffer') else ''))
+                for sig, d in viols:
+                    acc.violation(sig, case, d)
+        return
+    if kind == 'bam':
+        for ms in shard[1]:
+            viols, nruns, fl = check_bam_word(ms, tier)
+            case = {'word': list(ms), 'kind': 'bam'}
+            acc.case(case, transitions=nruns * len(ms), execs=nruns, nontrivial=fl['ejected'], states=nruns,
+                     outcome=f'bam:n={len(ms)},ejected={fl["ejected"]},fetch_restricts={fl["restricted"]}')
+            for sig, d in viols:
+                acc.violation(sig, case, d)
+        return
+    if kind == 'unsorted':
+        for ms in shard[1]:
+            viols, nruns, nperm = check_unsorted_ms(ms, tier)
+            case = {'word': list(ms), 'kind': 'unsorted'}
+            acc.case(case, transitions=nruns * len(ms), execs=nruns, nontrivial=nperm > len(UNSORTED_CLASSES[tier]), states=nruns,
+                     outcome=f'unsorted:n={len(ms)},orders>1={nperm > len(UNSORTED_CLASSES[tier])}')
+            for sig, d in viols:
+                acc.violation(sig, case, d)
+        return
     kind, mss = shard
     for ms in mss:
         for word in orders(ms, kind):
@@ -249,4 +682,11 @@ def run_shard(shard, tier, acc):
 
 def replay(case):
     # the tier only selects the classes; replay with the widest set
-    return check_word(tuple(case['word']), 'thorough', case.get('kind', 'site'))[0]
+    kind = case.get('kind', 'site')
+    if kind == 'opt':
+        return check_opt_word(tuple(case['word']), case['option'], 'thorough')[0]
+    if kind == 'bam':
+        return check_bam_word(tuple(case['word']), 'thorough')[0]
+    if kind == 'unsorted':
+        return check_unsorted_ms(tuple(case['word']), 'thorough')[0]
+    return check_word(tuple(case['word']), 'thorough', kind)[0]
